@@ -435,7 +435,7 @@ Qed.
 
 Lemma sagree_glob fuel loc cmd arg s : sagree s -> sagree (fst (ec_glob rvalid rfind exec fuel loc cmd arg s)).
 Proof.
-  intro H. unfold ec_glob.
+  intro H. unfold ec_glob. destruct (GDEPMAX <=? xgdep s)%nat; [exact H|].
   set (loc' := match loc, xgdep s with [], O => [37%N] | _, _ => loc end).
   reg_destruct loc' s. destruct (_ || _); [exact Hs1|].
   destruct (re_read arg) as [pat body].
